@@ -1,5 +1,6 @@
 import LanceModel.C38.CacheLemmas
 import LanceModel.C38.KeyLemmas
+import LanceModel.C38.FragLemmas
 /-
 C38 — caching is transparent: "Results read through a session are the same with any cache capacity (none, tiny with
 eviction, large) as with caching disabled, including when a table is deleted and re-created at the same location within the
@@ -133,5 +134,154 @@ theorem key_determines_value_RowIdIndexKey_counterexample :
   have := h recreateHistory 0 1 (.ridIndex [(0, 0, 0), (1, 0, 1), (2, 1, 0)]) (.ridIndex [(0, 0, 0), (1, 0, 1)])
     (by decide) (by decide)
   cases this
+
+theorem good_L (ops : List Op) : Good (run World.init ops) := good_run ops _ good_init
+
+/-- `RowIdSequenceKey { version, fragment_id }` (the key since fix 37c4aa6) -/
+theorem key_determines_value_RowIdSequenceKey_partial (ops : List Op) (hn : noRecreate [] ops = true) (t v f : Nat)
+    (x x' : Val) (h : (Key.rowIdSeq t v f, x) ∈ L ops) (h' : (Key.rowIdSeq t v f, x') ∈ L ops) : x = x' := by
+  obtain ⟨t1, m1, hm1, h1⟩ := mem_logEntries.mp h
+  obtain ⟨t2, m2, hm2, h2⟩ := mem_logEntries.mp h'
+  rw [mem_entriesOf_rowIdSeq] at h1 h2
+  obtain ⟨_, rfl, hv1, f1, hf1, hid1, rfl⟩ := h1
+  obtain ⟨_, rfl, hv2, f2, hf2, hid2, rfl⟩ := h2
+  simp only [↓reduceIte] at hv1 hv2
+  have := version_determines_manifest_partial ops hn _ m1 m2 hm1 hm2 (by omega)
+  subst this
+  rw [frag_id_inj ((good_L ops).ids _ hm1) hf1 hf2 (by omega)]
+
+theorem key_determines_value_RowIdSequenceKey_counterexample :
+    ¬ ∀ (ops : List Op) (t v f : Nat) (x x' : Val),
+      (Key.rowIdSeq t v f, x) ∈ L ops → (Key.rowIdSeq t v f, x') ∈ L ops → x = x' := by
+  intro h
+  have := h [.create 0 true 3 3, .drop 0, .create 0 true 3 2] 0 1 0 (.seq [0, 1, 2]) (.seq [0, 1]) (by decide) (by decide)
+  cases this
+
+/-- the key of the pinned commit (`RowIdSequenceKey { fragment_id }`, no version): an overwrite is enough, no table is
+    dropped — the defect repaired by 37c4aa6 -/
+theorem pinned_RowIdSequenceKey_counterexample :
+    ¬ ∀ (ops : List Op), noRecreate [] ops = true → ∀ (t v f : Nat) (x x' : Val),
+      (Key.rowIdSeq t v f, x) ∈ logEntries false (run World.init ops).log →
+      (Key.rowIdSeq t v f, x') ∈ logEntries false (run World.init ops).log → x = x' := by
+  intro h
+  have := h [.create 0 true 2 3, .overwrite 0 2 5] (by decide) 0 0 0 (.seq [0, 1]) (.seq [3, 4]) (by decide) (by decide)
+  cases this
+
+/-- `DeletionFileKey { fragment_id, read_version, id }`: EVERY history -/
+theorem key_determines_value_DeletionFileKey (ops : List Op) (t f rv id : Nat) (x x' : Val)
+    (h : (Key.deletion t f rv id, x) ∈ L ops) (h' : (Key.deletion t f rv id, x') ∈ L ops) : x = x' := by
+  obtain ⟨t1, m1, hm1, h1⟩ := mem_logEntries.mp h
+  obtain ⟨t2, m2, hm2, h2⟩ := mem_logEntries.mp h'
+  rw [mem_entriesOf_deletion] at h1 h2
+  obtain ⟨_, f1, hf1, d1, hd1, hid1, _, hdid1, rfl⟩ := h1
+  obtain ⟨_, f2, hf2, d2, hd2, hid2, _, hdid2, rfl⟩ := h2
+  rw [(good_L ops).obj.delFun _ hm1 _ hm2 f1 hf1 f2 hf2 d1 d2 (by omega) hd1 hd2 (by omega)]
+
+/-- file metadata cached under the data file path (`data/<uuid>.lance`): EVERY history -/
+theorem key_determines_value_FileMetadataKey (ops : List Op) (t file f : Nat) (x x' : Val)
+    (h : (Key.fileMeta t file f, x) ∈ L ops) (h' : (Key.fileMeta t file f, x') ∈ L ops) : x = x' := by
+  obtain ⟨t1, m1, hm1, h1⟩ := mem_logEntries.mp h
+  obtain ⟨t2, m2, hm2, h2⟩ := mem_logEntries.mp h'
+  rw [mem_entriesOf_fileMeta] at h1 h2
+  obtain ⟨_, f1, hf1, hfile1, hid1, rfl⟩ := h1
+  obtain ⟨_, f2, hf2, hfile2, hid2, rfl⟩ := h2
+  rw [((good_L ops).obj.fileFun _ hm1 _ hm2 f1 hf1 f2 hf2 (by omega) (by omega)).1]
+
+/-- index caches keyed by the index uuid: EVERY history -/
+theorem key_determines_value_IndexUuidKey (ops : List Op) (t u : Nat) (x x' : Val)
+    (h : (Key.indexData t u, x) ∈ L ops) (h' : (Key.indexData t u, x') ∈ L ops) : x = x' := by
+  obtain ⟨t1, m1, hm1, h1⟩ := mem_logEntries.mp h
+  obtain ⟨t2, m2, hm2, h2⟩ := mem_logEntries.mp h'
+  rw [mem_entriesOf_indexData] at h1 h2
+  obtain ⟨_, i1, hi1, hu1, rfl⟩ := h1
+  obtain ⟨_, i2, hi2, hu2, rfl⟩ := h2
+  rw [(good_L ops).obj.idxFun _ hm1 _ hm2 i1 hi1 i2 hi2 (by omega)]
+
+example : (Key.deletion 0 0 1 1, Val.dv [1]) ∈ L [.create 0 true 3 3, .delete 0 1 2, .delete 0 2 3] := by decide
+example : (Key.deletion 0 0 2 2, Val.dv [1, 2]) ∈ L [.create 0 true 3 3, .delete 0 1 2, .delete 0 2 3] := by decide
+example : (Key.indexData 0 1, Val.index { uuid := 1, frags := [0], content := [0, 1, 2] }) ∈
+    L [.create 0 true 3 3, .index 0, .append 0 3 1] := by decide
+
+/-! ## the property -/
+
+/-- every (key, value) a session can load during a history is in `L` -/
+theorem loads_trace_subset (evs : List Ev) : ∀ w : World, AllTabsInLog w → ∀ p, p ∈ loads (trace true w evs) →
+    p ∈ logEntries true (run w (opsOf evs)).log := by
+  induction evs with
+  | nil => intro w _ p hp; cases hp
+  | cons ev r ih =>
+    intro w hw p hp
+    cases ev with
+    | op o => exact ih _ (allTabsInLog_step w o hw) p hp
+    | evict keep => exact ih w hw p hp
+    | read k =>
+      simp only [trace] at hp
+      simp only [opsOf]
+      split at hp
+      · rename_i v hg
+        simp only [loads, List.mem_cons] at hp
+        rcases hp with hp | hp
+        · subst hp
+          obtain ⟨t, ms, m, htab, hm, he⟩ := mem_entries.mp (cget_mem hg)
+          obtain ⟨pre, hpre⟩ := log_run_suffix (opsOf r) w
+          rw [mem_logEntries]
+          exact ⟨t, m, by rw [hpre]; exact List.mem_append_right _ (hw t ms m htab hm), he⟩
+        · exact ih w hw p hp
+      · exact ih w hw p hp
+
+/-- without a re-created location everything loadable during a history is the graph of a function -/
+theorem functional_L_partial (ops : List Op) (hn : noRecreate [] ops = true) : Functional (L ops) := by
+  intro k v v' h h'
+  cases k with
+  | manifest t ver e => exact key_determines_value_ManifestKey ops t ver e v v' h h'
+  | txn t ver => exact key_determines_value_TransactionKey_partial ops hn t ver v v' h h'
+  | indexMeta t ver => exact key_determines_value_IndexMetadataKey_partial ops hn t ver v v' h h'
+  | rowIdMask t ver => exact key_determines_value_RowIdMaskKey_partial ops hn t ver v v' h h'
+  | rowIdIndex t ver => exact key_determines_value_RowIdIndexKey_partial ops hn t ver v v' h h'
+  | rowIdSeq t ver f => exact key_determines_value_RowIdSequenceKey_partial ops hn t ver f v v' h h'
+  | deletion t f rv id => exact key_determines_value_DeletionFileKey ops t f rv id v v' h h'
+  | fileMeta t file f => exact key_determines_value_FileMetadataKey ops t file f v v' h h'
+  | indexData t u => exact key_determines_value_IndexUuidKey ops t u v v' h h'
+
+/-- C38 at full strength: whatever the tables go through (drop and re-create at the same location included, any number of
+    locations sharing the session), whatever is read and whatever is evicted (any capacity), reading through the session's
+    caches gives what reading with caching disabled gives. -/
+def C38_full : Prop :=
+  ∀ evs : List Ev, runCached [] (trace true World.init evs) = runUncached (trace true World.init evs)
+
+/-- lance meets it as long as no location is created again after it was dropped -/
+theorem C38_partial (evs : List Ev) (hn : noRecreate [] (opsOf evs) = true) :
+    runCached [] (trace true World.init evs) = runUncached (trace true World.init evs) := by
+  apply transparent_of_key_determines_value
+  intro k v v' h h'
+  have hw : AllTabsInLog World.init := by intro t ms m hm; cases hm
+  exact functional_L_partial (opsOf evs) hn k v v'
+    (loads_trace_subset evs _ hw _ h) (loads_trace_subset evs _ hw _ h')
+
+/-- create (3 rows, stable row ids), read the row id index of version 1, drop, create again (2 rows), read it again -/
+def recreateReads : List Ev :=
+  [.op (.create 0 true 2 3), .read (.rowIdIndex 0 1), .op (.drop 0), .op (.create 0 true 2 2), .read (.rowIdIndex 0 1)]
+
+theorem C38_counterexample : ¬ C38_full := by
+  intro h
+  have := h recreateReads
+  revert this
+  decide
+
+/-- non-vacuity of `C38_partial`: a history with overwrite, delete, restore, an index, two locations, evictions -/
+example : noRecreate [] (opsOf [.op (.create 0 true 2 3), .read (.rowIdSeq 0 1 0), .op (.overwrite 0 2 5),
+    .read (.rowIdSeq 0 2 0), .evict (fun _ => false), .op (.create 1 true 2 3), .read (.rowIdIndex 1 1),
+    .op (.delete 0 3 4), .op (.restore 0 1), .read (.rowIdMask 0 4), .op (.index 1), .read (.indexMeta 1 2),
+    .op (.drop 1), .read (.txn 0 1)]) = true := by decide
+
+/-- with the pinned `RowIdSequenceKey` the same statement already fails without any drop -/
+theorem pinned_C38_counterexample :
+    ¬ ∀ evs : List Ev, noRecreate [] (opsOf evs) = true →
+      runCached [] (trace false World.init evs) = runUncached (trace false World.init evs) := by
+  intro h
+  have := h [.op (.create 0 true 2 3), .read (.rowIdSeq 0 0 0), .op (.overwrite 0 2 5), .read (.rowIdSeq 0 0 0)]
+    (by decide)
+  revert this
+  decide
 
 end LanceModel.C38
